@@ -194,6 +194,7 @@ def verify_function(world, cs, contract, limits=Limits):
         I = Interp(world, ctx, cs.contracts)
         I.tenv = cs.tenv
         I.loop_hooks = cs.loop_hooks()
+        I.no_merge = contract.options.get("via") == "lean"
         res.paths += 1
         try:
             try:
@@ -220,6 +221,8 @@ def verify_function(world, cs, contract, limits=Limits):
                     outcome = ("raise", e.exc)
                 ctx.mark_reach("exit." + outcome[0])
                 check_outcome(I, contract, fi, ns, entry, outcome)
+                if contract.options.get("via") == "lean" and outcome[0] == "ret":
+                    lean_obligation(I, contract, res, outcome[1])
             except PathEnd:
                 if getattr(ctx, "loop_cut", False):
                     res.cut_paths += 1
@@ -250,8 +253,51 @@ def verify_function(world, cs, contract, limits=Limits):
         for n in ctx.notes:
             if n not in res.notes:
                 res.notes.append(n)
+    if not res.reach.get("pre", True) and contract.options.get("witness") and contract.pre is not None:
+        # the solver could not exhibit a model of a non-linear precondition: check the contract's
+        # own witness concretely (vacuity guard)
+        try:
+            ctx = Ctx([])
+            I = Interp(world, ctx, cs.contracts)
+            I.tenv = cs.tenv
+            w = contract.options["witness"]
+            ns = {k: _concrete_value(I, v, contract.types.get(k, ""), cs.tenv) for k, v in w.items()}
+            if truth(contract.eval_clause(I, contract.pre, ns)) is True:
+                res.reach["pre"] = True
+                res.reach["pre.by_witness"] = True
+        except Exception as e:  # noqa: BLE001
+            res.notes.append(f"witness check failed: {e}")
     res.secs = time.time() - t0
     return res
+
+
+def _concrete_value(I, v, typ, tenv):
+    from .values import Obj
+    if typ.startswith("obj:") and isinstance(v, dict):
+        sh = tenv.shapes[typ[4:]]
+        return Obj(sh.ci, {k: _concrete_value(I, x, sh.fields.get(k, ""), tenv) for k, x in v.items()})
+    return v
+
+
+def lean_obligation(I, contract, res, val):
+    """the field statement of this path, discharged by Lean (see pyvc/lean.py)"""
+    from . import lean
+    from .ops import zi
+    ctx = I.ctx
+    o = contract.options
+    pvar = ctx.inputs[o["lean_p"]][1]
+    outs = [zi(x) for x in (val if isinstance(val, tuple) else (val,))]
+    name = f"lean.{contract.name}@{contract.target}"
+    try:
+        src, dropped = lean.emit(name, pvar, list(ctx.pc), outs, o.get("lean_pre", []), o["lean_post"], o["lean_tactic"])
+    except lean.NoTransport as e:
+        res.unsupported.append(f"lean transport: {e}")
+        return
+    tag = f"{contract.name}_{res.paths}"
+    ok, out, secs, path = lean.run_lean(src, tag)
+    res.obligations.append(dict(name=name, status="proved" if ok else "refuted", backend="lean", secs=round(secs, 2), model=None,
+                                note=f"{dropped} order hypotheses dropped; file {path}", goal=o["lean_post"][:300],
+                                output=("lean: " + out)[-1500:], smt2=None if ok else src))
 
 
 def check_outcome(I, contract, fi, ns, entry, outcome):
